@@ -25,7 +25,7 @@ try:
     if r.returncode != 0:
         print("MUTANT-ERROR: does not import\n" + r.stderr[-500:]); sys.exit(3)
     t0 = time.time()
-    env = dict(os.environ, PYBROPS_REPO=d)
+    env = dict(os.environ, PYBROPS_REPO=d, PBT_REPLAY_DIR=os.path.join(d, "replays"))
     r = subprocess.run(["/verif/check", prop, "--no-evidence"] + extra, capture_output=True, text=True, env=env, cwd="/verif")
     dt = time.time() - t0
     clauses = [ln.split("clause=")[1].split(":")[0] for ln in r.stdout.splitlines() if ln.startswith("violation in")]
